@@ -159,8 +159,21 @@ func (c *canon) expr(v ssa.Value) string {
 		s = c.id(x, "phi:"+normType(x.Type())+":")
 	case *ssa.Call:
 		s = c.id(x, "call")
-	case *ssa.Select, *ssa.Next, *ssa.Range:
-		s = c.id(x, fmt.Sprintf("%T", x))
+	case *ssa.Range:
+		// the collection ranged over is part of the value (a loop over another map or string is another loop)
+		s = c.id(x, "Range("+c.expr(x.X)+"):")
+	case *ssa.Next:
+		s = c.id(x, fmt.Sprintf("Next(%s,%v):", c.expr(x.Iter), x.IsString))
+	case *ssa.Select:
+		var ops []string
+		for _, st := range x.States {
+			op := fmt.Sprintf("%d:%s", st.Dir, c.expr(st.Chan))
+			if st.Send != nil {
+				op += "<-" + c.expr(st.Send)
+			}
+			ops = append(ops, op)
+		}
+		s = c.id(x, fmt.Sprintf("Select[%v](%s):", x.Blocking, strings.Join(ops, ",")))
 	case *ssa.FieldAddr:
 		st := x.X.Type().Underlying().(*types.Pointer).Elem().Underlying().(*types.Struct)
 		s = "&(" + c.expr(x.X) + ")." + st.Field(x.Field).Name()
